@@ -257,6 +257,24 @@ class _ExprInline(ast.NodeTransformer):
         self.generic_visit(n)
         f = n.func
         fi = None
+        # ClassName.factory(args) with an unknown classmethod `return cls(...)` of any class of the packages
+        if isinstance(f, ast.Attribute) and isinstance(f.value, ast.Name) and (f.value.id, f.attr) in getattr(self, "factories", {}):
+            expr, params = self.factories[(f.value.id, f.attr)]
+            if not n.keywords and len(n.args) == len(params) and not any(isinstance(a, ast.Starred) for a in n.args):
+                mapping = dict(zip(params, n.args))
+                mapping["cls"] = ast.Name(id=f.value.id, ctx=ast.Load())
+                uses = {}
+                for x in ast.walk(expr):
+                    if isinstance(x, ast.Name) and x.id in mapping:
+                        uses[x.id] = uses.get(x.id, 0) + 1
+                if all(isinstance(a_, (ast.Name, ast.Constant)) or (isinstance(a_, ast.Attribute)) or uses.get(p_, 0) <= 1 for p_, a_ in mapping.items()):
+                    new = _Subst(mapping, {}).visit(ast.parse(ast.unparse(expr), mode="eval").body)
+                    ast.copy_location(new, n)
+                    for x in ast.walk(new):
+                        if not hasattr(x, "lineno"):
+                            ast.copy_location(x, n)
+                    self.done.append((self.caller.qname, f"<factory>.{f.value.id}.{f.attr}"))
+                    return new
         if isinstance(f, ast.Name):
             fi = self.caller.nested.get(f.id) or (self.caller.outer.nested.get(f.id) if self.caller.outer is not None else None) or self.mi.funcs.get(f.id)
         elif isinstance(f, ast.Attribute) and isinstance(f.value, ast.Name) and self.caller.cls is not None and f.value.id in ("self", "cls", self.caller.cls.name):
@@ -292,6 +310,13 @@ def inline_new_helpers(prog):
     """rewrite function bodies in place; returns the list of (caller, helper) expansions performed"""
     known = known_functions()
     done = []
+    # unknown classmethods of the form `return cls(<expr>)`: usable from every module as ClassName.method(...)
+    factories = {}
+    for fi in prog.funcs.values():
+        if fi.cls is not None and fi.qname not in known and fi.decorators == ["classmethod"] and fi.params and fi.params[0] == "cls":
+            body = [s_ for s_ in fi.node.body if not (isinstance(s_, ast.Expr) and isinstance(s_.value, ast.Constant))]
+            if len(body) == 1 and isinstance(body[0], ast.Return) and isinstance(body[0].value, ast.Call) and isinstance(body[0].value.func, ast.Name) and body[0].value.func.id == "cls":
+                factories[(fi.cls.name, fi.name)] = (body[0].value, fi.params[1:])
     # (0) pure expression helpers are substituted wherever they are called (helpers that use helpers: a few rounds)
     for mi in list(prog.modules.values()):
         for _round in range(3):
@@ -310,11 +335,12 @@ def inline_new_helpers(prog):
                         setters = [m for m in fi.cls.methods if m == fi.name + ".setter"]
                         if not setters:
                             props[(fi.cls.name, fi.name)] = body[0].value
-            if not ecands and not props:
+            if not ecands and not props and not (factories and _round == 0):
                 break
             before = len(done)
             for caller in [f for f in prog.funcs.values() if f.mod is mi]:
                 tr = _ExprInline(mi, caller, {q: e for q, e in ecands.items() if q != caller.qname}, done, props)
+                tr.factories = factories
                 caller.node.body = [tr.visit(st) for st in caller.node.body]
                 ast.fix_missing_locations(caller.node)
             if len(done) == before:
